@@ -93,7 +93,8 @@ def _pca_case(draw):
     return {'k': 'pca', 'spec': spec, 'spikes': sp, 'channels': ch,
             'max_per_template': draw(st.integers(2, 8)), 'max_channels': draw(st.integers(1, nc)),
             # the default neighbourhood (12) exceeds the channel count: stored rows are -1 padded
-            'padded': draw(st.booleans())}
+            'padded': draw(st.booleans()),
+            'earlier': draw(st.sampled_from([None, None, 2, 3, 9]))}
 
 
 def _pca_large_cases(th):
@@ -289,13 +290,22 @@ def _check_pca(case):
             if sel < 2:
                 # a store holding a single spike is squeezed to 0-d arrays (documented degeneracy)
                 raise core.Reject('store would hold < 2 spikes')
+            if case.get('earlier'):
+                # an earlier extraction in the same session, with another subset size
+                if D.store_selection_size(T, m, case['earlier']) >= 2:
+                    must_return('save_spikes_subset_waveforms (earlier)',
+                                m.save_spikes_subset_waveforms,
+                                max_n_spikes_per_template=case['earlier'],
+                                max_n_channels=case['max_channels'])
+                    info['second_extraction'] = True
             must_return('save_spikes_subset_waveforms', m.save_spikes_subset_waveforms,
                         max_n_spikes_per_template=case['max_per_template'],
                         max_n_channels=case['max_channels'])
             require(m.spike_waveforms is not None, 'store not loaded', key='pca-store')
             sp = np.array(case['spikes'], dtype=np.int64)
             ch = np.array(case['channels'], dtype=np.int64)
-            stored = np.intersect1d(sp, np.asarray(m.spike_waveforms.spike_ids))
+            # (which spikes are stored is read from the exported files, not from the model)
+            stored = np.intersect1d(sp, np.load(T.dir / '_phy_spikes_subset.spikes.npy'))
             info['stored'] = len(stored)
             if len(stored) == 0:
                 return info     # nothing is claimed; compute_features of an empty set is undefined
@@ -422,4 +432,6 @@ def classify(case, info):
             labels.append('pca:>=1000-spikes-in-one-request')
         if info.get('padded'):
             labels.append('pca:store-rows-padded-with--1')
+        if info.get('second_extraction'):
+            labels.append('pca:second-extraction-in-session')
     return labels, nt
